@@ -694,12 +694,104 @@ class NpShim:
     arctan2 = staticmethod(_elementwise2("atan2"))
     fmod = staticmethod(_elementwise2("fmod"))
     mod = staticmethod(_elementwise2("pymod"))
+    # synonyms and one-line compositions, so that an equivalent spelling of a formula is still translated
+    radians = deg2rad
+    degrees = rad2deg
+    remainder = mod
+    floor = staticmethod(_elementwise1("floor"))
+
+    @staticmethod
+    def _map1(fn, x):
+        if isinstance(x, _np.ndarray):
+            out = _np.empty(x.shape, dtype=object)
+            for idx in _np.ndindex(x.shape):
+                out[idx] = fn(lift(x[idx]))
+            return out
+        return fn(lift(x))
+
+    @staticmethod
+    def _map2(fn, x, y):
+        if isinstance(x, _np.ndarray) or isinstance(y, _np.ndarray):
+            bx, by = _np.broadcast_arrays(_arr0(_objarr(x)), _arr0(_objarr(y)))
+            out = _np.empty(bx.shape, dtype=object)
+            for idx in _np.ndindex(bx.shape):
+                out[idx] = fn(lift(bx[idx]), lift(by[idx]))
+            return out
+        return fn(lift(x), lift(y))
+
+    @staticmethod
+    def square(x):
+        return NpShim._map1(lambda v: v * v, x)
+
+    @staticmethod
+    def negative(x):
+        return NpShim._map1(lambda v: -v, x)
+
+    @staticmethod
+    def reciprocal(x):
+        return NpShim._map1(lambda v: 1 / v, x)
+
+    @staticmethod
+    def power(x, y):
+        return NpShim._map2(lambda a, b: a ** b, x, y)
+    float_power = power
+
+    @staticmethod
+    def hypot(x, y):
+        return NpShim._map2(lambda a, b: un("sqrt", a * a + b * b), x, y)
+
+    @staticmethod
+    def add(x, y):
+        return NpShim._map2(lambda a, b: a + b, x, y)
+
+    @staticmethod
+    def subtract(x, y):
+        return NpShim._map2(lambda a, b: a - b, x, y)
+
+    @staticmethod
+    def multiply(x, y):
+        return NpShim._map2(lambda a, b: a * b, x, y)
+
+    @staticmethod
+    def divide(x, y):
+        return NpShim._map2(lambda a, b: a / b, x, y)
+    true_divide = divide
+
+    @staticmethod
+    def minimum(x, y):
+        return NpShim._map2(lambda a, b: where(a < b, a, b), x, y)
+
+    @staticmethod
+    def maximum(x, y):
+        return NpShim._map2(lambda a, b: where(a < b, b, a), x, y)
 
     @staticmethod
     def abs(x):
         if isinstance(x, _np.ndarray):
             return _np.vectorize(abs, otypes=[object])(x)
         return abs(lift(x))
+
+    @staticmethod
+    def absolute(x):
+        return NpShim.abs(x)
+
+    @staticmethod
+    def fabs(x):
+        return NpShim.abs(x)
+
+    @staticmethod
+    def logical_or(a, b):
+        if isinstance(a, (bool, _np.bool_)):
+            return True if a else b
+        if isinstance(b, (bool, _np.bool_)):
+            return True if b else a
+        return a | b
+
+    @staticmethod
+    def logical_not(a):
+        if isinstance(a, (bool, _np.bool_)):
+            return not a
+        return ~a
 
     @staticmethod
     def sign(x):
